@@ -3,7 +3,7 @@
 //!   squfof <n>       -> `none` | `some <a> <b>`   (a panic of the real code answers `panic`:
 //!                       main.rs runs every request under catch_unwind)
 //!   squfof_seed <n>  -> the f64 seed of squfof::isqrt, `(n as f64).sqrt() as u64`, computed with
-//!                       the same expression as squfof.rs:99 (the model takes it as a parameter)
+//!                       the same expression as squfof.rs:103 (the model takes it as a parameter)
 use crate::util::*;
 
 pub fn handle(op: &str, a: &[&str]) -> Option<String> {
